@@ -56,7 +56,7 @@ def gen_arg(r, big=False):
     return rand_bytes(r, 1 + r.below(40))
 
 
-KEYS = [b"A", b"B", b"a", b"PATH", b"HOME", b"K1", b"LONGER_NAME", b"\xc3\xa9", b"\xff\xfe", b"k k"]
+KEYS = [b"A", b"B", b"a", b"PATH", b"HOME", b"K1", b"AB", b"A_", b"HOMEDIR", b"K", b"K10", b"PATHEXT", b"LONGER_NAME", b"\xc3\xa9", b"\xff\xfe", b"k k"]
 
 
 def gen_env(r, big=False):
